@@ -426,3 +426,162 @@ def parse_hint_result(out: str):
             m2 = re.match(r"Some \(Some (\d+)%N\)", item)
             res.append(("diff", int(m2.group(1))) if m2 else ("unparsed", item))
     return res
+
+
+# ------------------------------------------------------------------ relay (C05) and clock (C06)
+class RouterProxy:
+    """Stands in for engine._router: records every action handed to the real router."""
+
+    def __init__(self, inner, sink):
+        self.inner, self.sink = inner, sink
+
+    def __call__(self, action, store):
+        self.sink.append(action)
+        return self.inner(action, store)
+
+    def __getattr__(self, k):
+        return getattr(self.inner, k)
+
+
+class RelayEnc:
+    def __init__(self):
+        self.names, self.meths, self.tags, self.pays = Interner(1), Interner(1), Interner(1), Interner(1)
+
+    def tag(self, t):
+        return 0 if not t else self.tags(t)
+
+    def am(self, method: str) -> str:
+        for kind, ctor in ((".emitted.", "Emitted"), (".done.", "Done")):
+            if kind in method:
+                m, _, t = method.rpartition(kind)
+                return "(%s N N %s %s)" % (ctor, nlit(self.meths(m)), nlit(self.tag(t)))
+        return "(Direct N N %s)" % nlit(self.meths(method))
+
+    def action(self, a) -> str:
+        p = a.get("payload")
+        ap = "(PNone N)" if p is None else "(PEvent N %s)" % nlit(self.pays(digest(p)))
+        return "(Play.Build_action N N N N %s %s %s)" % (nlit(self.names(a["name"])), self.am(a["method"]), ap)
+
+    def event(self, e) -> str:
+        return "(Play.Build_event N N N N %s %s %s %s)" % (
+            nlit(self.names(e["name"])), nlit(self.meths(e["method"])), nlit(self.tag(e.get("tag"))),
+            nlit(self.pays(digest(e["payload"]))))
+
+
+def scenario_relay(job, variant, steps, via_json=True):
+    """Like scenario_steps, but records the router-level dispatch of every play.
+    Returns (coq text, impl findings, info)."""
+    import simaple.simulate.engine as eng_mod
+    from simaple.simulate.timer import clock_view
+    rec = Recorder()
+    enc = RelayEnc()
+    plays = []          # (prev_events, action, dispatched, events, clock_before, clock_after)
+    findings = []
+    sink = []
+    orig_play = eng_mod.play
+    state = {"prev": []}
+
+    def recording_play(store, action, router):
+        del sink[:]
+        cb = clock_view(store)
+        out = orig_play(store, action, router)
+        st2, events = out
+        plays.append((list(state["prev"]), dict(action), list(sink), list(events), cb, clock_view(st2)))
+        state["prev"] = list(events)
+        return out
+
+    def attach(e):
+        e._router = RouterProxy(e._router, sink)
+        pls = [p for l in e.operation_logs() for p in l.playlogs]
+        state["prev"] = list(pls[-1].events) if pls else []
+        return e
+
+    eng_mod.play = recording_play
+    try:
+        e = attach(simenv.make_engine(job, variant))
+        init_logs = list(e.operation_logs())
+        for st in steps:
+            if st[0] == "exec":
+                e.exec(st[1])
+            elif st[0] == "rollback":
+                e.rollback(st[1])
+                attach_prev = [p for l in e.operation_logs() for p in l.playlogs]
+                state["prev"] = list(attach_prev[-1].events) if attach_prev else []
+            elif st[0] == "reload":
+                logs = list(e.operation_logs())
+                if via_json:
+                    logs = json_roundtrip_logs(logs)
+                e = simenv.make_engine(job, variant)
+                e.reload(logs)
+                attach(e)
+        final = list(e.operation_logs())
+    finally:
+        eng_mod.play = orig_play
+    # implementation-side statements of C05 / C06 on the recorded plays
+    for i, (prev, action, disp, events, cb, ca) in enumerate(plays):
+        want = 0.0
+        if action["name"] == "*" and action["method"] == "elapse":
+            want = action["payload"]
+        if cb + want != ca:
+            findings.append({"what": "C06: a play moved the clock by %r, its action asked for %r" % (ca - cb, want),
+                             "play_index": i, "action": action})
+        em = [a for a in disp if ".emitted." in a["method"]]
+        dn = [a for a in disp if ".done." in a["method"]]
+        if len(em) != len(prev) or len(dn) != len(prev):
+            findings.append({"what": "C05: %d events of the previous action, %d offered as emitted, %d as done" % (len(prev), len(em), len(dn)),
+                             "play_index": i, "action": action})
+        for ev in events:
+            from simaple.simulate.reserved_names import Tag
+            if ev.get("tag") == Tag.ELAPSED and action["method"] == "elapse" and action["name"] == "*" and ev["payload"].get("time") != action["payload"]:
+                findings.append({"what": "C06: an 'elapsed' notification carries %r for an elapse of %r" % (ev["payload"].get("time"), action["payload"]),
+                                 "event": ev, "play_index": i})
+    # documented advance per command, on the surviving history
+    from simaple.simulate.reserved_names import Tag as _Tag
+
+    def first_delay(evs, name=None):
+        for ev in evs:
+            if ev.get("tag") == _Tag.DELAY and ev["payload"]["time"] > 0 and (name is None or ev["name"] == name):
+                return ev["payload"]["time"]
+        return 0.0
+    last_pl = final[0].playlogs[-1]
+    for li, log in enumerate(final[1:], start=1):
+        c = log.command
+        if getattr(c, "command_type", "") == "console":
+            if log.playlogs:
+                findings.append({"what": "C06: a console entry played an action", "log_index": li})
+            continue
+        before = last_pl.clock
+        after = log.playlogs[-1].clock if log.playlogs else before
+        w = c.command
+        exp = {"ELAPSE": lambda: c.time, "USE": lambda: 0.0, "KEYDOWNSTOP": lambda: 0.0,
+               "CAST": lambda: first_delay(log.playlogs[0].events) if log.playlogs else 0.0,
+               "RESOLVE": lambda: first_delay(last_pl.events, c.name)}.get(w, lambda: None)()
+        if exp is not None and abs((after - before) - exp) > 1e-9 * max(1.0, abs(after)):
+            findings.append({"what": "C06: %s advanced the clock by %r, documented advance %r" % (c.expr, after - before, exp),
+                             "log_index": li, "command": c.expr})
+        if after < before and not (w == "ELAPSE" and c.time < 0):
+            findings.append({"what": "C06: the clock decreased (%r -> %r) on %s" % (before, after, c.expr), "log_index": li})
+        if w == "CAST" and log.playlogs and any(ev.get("tag") == _Tag.REJECT and ev["name"] == c.name for ev in log.playlogs[0].events) \
+                and after != before:
+            findings.append({"what": "C06: rejected %s advanced the clock by %r" % (c.expr, after - before), "log_index": li})
+        if log.playlogs:
+            last_pl = log.playlogs[-1]
+    cases = "; ".join("([%s], %s, [%s])" % ("; ".join(enc.event(x) for x in prev), enc.action(a),
+                                             "; ".join(enc.action(x) for x in disp)) for (prev, a, disp, _e, _cb, _ca) in plays)
+    logs_txt = "[" + "; ".join(rec.model_log(l) for l in final[1:]) + "]"
+    init_txt = "[" + "; ".join(rec.model_log(l) for l in init_logs) + "]"
+    txt = (HEADER + "From V.Model Require Import Play.\n"
+           "Definition cases : list (list QEv * QAct * list QAct) := [%s].\n"
+           "Eval vm_compute in (queue_bad 0 cases).\n"
+           "Definition init : list Ilog := %s.\nDefinition rest : list Ilog := %s.\n"
+           "Eval vm_compute in (advance_bad 1 init rest).\n" % (cases, init_txt, logs_txt))
+    return txt, findings, {"plays": len(plays), "dispatched": sum(len(p[2]) for p in plays), "logs": len(final)}
+
+
+def parse_two_lists(out: str):
+    """the two `list N` results of a relay shard -> (queue_bad, advance_bad) or None"""
+    import re
+    ms = re.findall(r"=\s*\[(.*?)\]\s*:\s*list N", out, re.S)
+    if len(ms) != 2:
+        return None
+    return tuple([int(x.strip().replace("%N", "")) for x in m.split(";") if x.strip()] for m in ms)
